@@ -198,7 +198,19 @@ def run_parse(parser, fmt, tokens, lenient, as_string=False):
         args = parser.parse(raw, fmt, lenient)
     except Exception as e:  # noqa
         return {"err": type(e).__name__}
-    return {"ok": observe_args(fmt, args)}
+    try:
+        return {"ok": observe_args(fmt, args)}
+    except Exception as e:  # noqa - reading the result through the listings failed: an observation, not a harness fault
+        return {"err": "reading the result: " + type(e).__name__}
+
+
+def run_reused(fmt, prev, tokens, lenient):
+    """the same parse on a parser OBJECT that has parsed another line before (Config.set_args_parser shares one
+    object between all parses of an application): the result is a function of the line alone"""
+    from clikit.args.default_args_parser import DefaultArgsParser
+    parser = DefaultArgsParser()
+    run_parse(parser, fmt, prev, lenient)
+    return run_parse(parser, fmt, tokens, lenient)
 
 
 def is_finite_float_text(t):
